@@ -69,3 +69,8 @@ def skips_keyword_only_arguments(func):
         for spec in inspect.signature(func).parameters.values()
         if spec.kind is spec.POSITIONAL_OR_KEYWORD
     }
+
+
+def salted_key(name, seed):
+    # positive control for R7.ORD (hash clause): a value derived from hash() of a string differs between processes
+    return seed + hash(name) % 1000
